@@ -405,8 +405,7 @@ def _none_default(chk, ctx) -> None:
         a = fi.node.args
         opt = []
         for arg, dflt in list(zip(reversed(a.posonlyargs + a.args), reversed(a.defaults))) + list(zip(a.kwonlyargs, a.kw_defaults)):
-            if dflt is not None and isinstance(dflt, ast.Constant) and dflt.value is None and arg.annotation is not None \
-                    and 'int' in ast.unparse(arg.annotation):
+            if dflt is not None and isinstance(dflt, ast.Constant) and dflt.value is None:
                 opt.append(arg.arg)
         if not opt:
             continue
@@ -425,7 +424,8 @@ def _none_default(chk, ctx) -> None:
                     bad.append(t)
         n += 1
         chk.ob('C08.none_default', f'State.{name}', not bad, ctx.loc(fi, bad[0]) if bad else fi.loc,
-               'an optional index / count is recognised as "not given" by `is None` only: index 0 is a player, not an absence',
+               'an optional argument is recognised as "not given" by `is None` only: player 0, a count of 0, an empty tuple of cards and the '
+               'unknown card (which is falsy) are values, not absences',
                got=f'`{bad[0].id}` is tested by truthiness' if bad else f'optional {opt}')
     chk.floor('C08.none_default', 20)
 
